@@ -103,6 +103,7 @@ pub fn run(ctx: &Ctx) -> i32 {
             cfg.cel_density = 3;
         }
         let (mut sp, palprog) = gen::gen_sprite(&mut rng, &cfg);
+        let mut hidden_covering = 0u64;
         if i % 80 == 7 {
             while sp.durations.len() < 300 {
                 sp.durations.push(10);
@@ -118,6 +119,46 @@ pub fn run(ctx: &Ctx) -> i32 {
                 }
             }
         }
+        // every fifth sprite gets one more frame in which exactly one visible image layer has a cel while hidden layers
+        // above and below it carry opaque canvas-sized cels at the origin (Normal, full opacity): what a hidden
+        // layer holds - however completely it would cover the rest - is no part of the frame
+        if i % 5 == 4 && sp.durations.len() < 60_000 {
+            let imgs: Vec<usize> = (0..sp.layers.len()).filter(|l| sp.layers[*l].kind == LayerKind::Image && *l <= 65_535).collect();
+            let vis = sp.visible();
+            let shown: Vec<usize> = imgs.iter().cloned().filter(|l| vis[*l]).collect();
+            if imgs.len() >= 2 && !shown.is_empty() {
+                let one = *rng.pick(&shown);
+                for l in &imgs {
+                    if *l != one && rng.chance(2, 3) {
+                        sp.layers[*l].flags &= !1;
+                    }
+                }
+                let vis = sp.visible();
+                let f = sp.durations.len() as u16;
+                sp.durations.push(33);
+                let (w, h) = (sp.width, sp.height);
+                let mut covering = 0;
+                for l in &imgs {
+                    if *l == one {
+                        let (cw, ch) = (rng.range(1, w.min(8) as i64) as u16, rng.range(1, h.min(8) as i64) as u16);
+                        let pixels = gen::gen_pixels(&mut rng, &sp, cw as usize * ch as usize);
+                        sp.cels.insert((f, *l as u16), CelM { x: rng.range(-1, w as i64 - 1) as i16, y: rng.range(-1, h as i64 - 1) as i16, opacity: rng.opacity(), content: CelContentM::Image { w: cw, h: ch, pixels }, ud: None });
+                    } else if !vis[*l] && (w as u32 * h as u32) <= 4096 {
+                        let mut pixels = gen::gen_pixels(&mut rng, &sp, w as usize * h as usize);
+                        match sp.fmt {
+                            Fmt::Rgba => pixels.chunks_exact_mut(4).for_each(|p| p[3] = 255),
+                            Fmt::Gray => pixels.chunks_exact_mut(2).for_each(|p| p[1] = 255),
+                            Fmt::Indexed => {}
+                        }
+                        sp.layers[*l].opacity = 255;
+                        sp.layers[*l].blend = 0;
+                        sp.cels.insert((f, *l as u16), CelM { x: 0, y: 0, opacity: 255, content: CelContentM::Image { w, h, pixels }, ud: None });
+                        covering += 1;
+                    }
+                }
+                hidden_covering = covering;
+            }
+        }
         // frames x layers never square
         if sp.durations.len() == sp.layers.len() {
             sp.durations.push(77);
@@ -127,6 +168,7 @@ pub fn run(ctx: &Ctx) -> i32 {
             c.ud = Some(UserDataM { text: Some(format!("cel f{} l{}", f, l)), color: None });
         }
         let mut res = CaseResult::ok(gen::features(&sp), 0, "ok");
+        res.count("hidden_covering_cels_over_a_single_visible_cel", hidden_covering);
         // plain / permuted cel chunks / junk in the reserved bytes of cel chunks (where later format versions keep a z-index)
         let var = match i % 4 {
             0 | 2 => Variation::none(),
